@@ -35,6 +35,7 @@ class SysDB:
         self.workflows: dict[str, dict[str, Any]] = {}
         self.notifications: dict[tuple[str, str | None], list[Any]] = {}
         self.streams: dict[tuple[str, str], list[Any]] = {}
+        self.stream_origin: dict[tuple[str, str], list[str]] = {}  # per item: "wf" (memoised write) | "step" (direct)
         self.closed: set[str] = set()  # workflow ids whose streams are closed (workflow terminated)
         self.observers: list[Callable[[str, dict], None]] = []
         self.writes = 0
@@ -100,7 +101,7 @@ class SysDB:
         self.workflows.pop(wfid, None)
         for k in [k for k in self.values if k[0] == wfid]:
             del self.values[k]
-        for d in (self.notifications, self.streams):
+        for d in (self.notifications, self.streams, self.stream_origin):
             for k in [k for k in d if k[0] == wfid]:
                 del d[k]
         self.closed.discard(wfid)
@@ -123,12 +124,13 @@ class SysDB:
         return copy.deepcopy(msg)
 
     # -- streams -----------------------------------------------------------------
-    def stream_append(self, wfid: str, key: str, value: Any, fid: int | None) -> None:
+    def stream_append(self, wfid: str, key: str, value: Any, fid: int | None, step_fid: int | None = None) -> None:
         self.streams.setdefault((wfid, key), []).append(copy.deepcopy(value))
+        self.stream_origin.setdefault((wfid, key), []).append("wf" if fid is not None else "step")
         if fid is not None:
             self.record(wfid, fid, "DBOS.writeStream", "ok", None, stream=key)
         else:
-            self._notify("stream", wfid=wfid, key=key)
+            self._notify("stream", wfid=wfid, stream=key, step_fid=step_fid)
 
     # -- crash snapshots -----------------------------------------------------------
     def snapshot(self) -> dict[str, Any]:
@@ -145,6 +147,7 @@ class SysDB:
             "workflows": copy.deepcopy(self.workflows),
             "notifications": copy.deepcopy(self.notifications),
             "streams": copy.deepcopy(self.streams),
+            "stream_origin": copy.deepcopy(self.stream_origin),
             "closed": set(self.closed),
         }
 
@@ -157,5 +160,6 @@ class SysDB:
         db.workflows = copy.deepcopy(snap["workflows"])
         db.notifications = copy.deepcopy(snap["notifications"])
         db.streams = copy.deepcopy(snap["streams"])
+        db.stream_origin = copy.deepcopy(snap["stream_origin"])
         db.closed = set(snap["closed"])
         return db
